@@ -14,6 +14,9 @@ import numpy as np
 from .. import models
 from ..core import EventLog, InjectedFault
 
+# largest observed (deviation / tolerance) of a comparison that passed
+MARGIN = [0.0]
+
 ID = "C14"
 LEVEL = "exploration"
 ENGINE = "opmachine"
@@ -398,6 +401,8 @@ def _compare_prefix(got, ref, upto, tol, time_tol=0.0, offset=0):
         if g.shape != w.shape:
             return "track %d has shape %s, expected %s" % (i, g.shape, w.shape)
         err = float(np.max(np.abs(g - w))) if g.size else 0.0
+        if err <= tol:
+            MARGIN[0] = max(MARGIN[0], err / tol)
         if not err <= tol:
             step = int(np.argmax(np.max(np.abs(g - w).reshape(len(g), -1),
                                         axis=1)))
@@ -602,6 +607,7 @@ def run_case(case, dec):
         "nontrivial": nontrivial and stats["computes"] >= 2,
         "key": "%s/f%d/r%d" % (method, stats["faults_fired"],
                                stats["restarts"]),
+        "margin": MARGIN[0],
         "stats": stats,
     }
 
@@ -752,6 +758,8 @@ def summarize(results):
         if k:
             enum[k] = enum.get(k, 0) + 1
     return {"operations": tot, "methods": by,
+            "largest_passing_deviation_over_tolerance": max(
+                [r.get("margin", 0.0) for r in results] or [0.0]),
             "bounded_exhaustive": {
                 "definition": "all histories of <= 2 (quick) / 3 (thorough) "
                               "compute(target) calls over a 3-step grid; "
